@@ -1,8 +1,355 @@
-import FimVerif.Model.Authz
+import FimVerif.Proofs.Lemmas.C11Spec
+import FimVerif.Proofs.Lemmas.C11Pdp
+import FimVerif.Proofs.Lemmas.C11Log
+/-!
+# C11 — authorization and accounting attributes cover every resource, in any order
+
+Model: `FimVerif.Authz` (`Model/Authz.lean`), the fold of `ResourceAuthZAttributes._collect_attributes_from_topo`
+over an insertion-ordered dictionary, `transform_to_pdp_request`, and `LogCollector`; tables from `Generated/Authz.lean`.
+All theorems quantify over every slice (any number of nodes, services, facilities, interfaces; any strings / integers).
+-/
 namespace FimVerif.C11
 open FimVerif.Authz FimVerif.Gen.Authz
 
+/-- **Exact content of the request.** For every slice and every attribute id the collected list is the direct
+description `spec` (Lemmas/C11Spec): cpu/ram/disk/component/bw/facility lists are the slice's values in stored order, the
+site lists are the first occurrences of the sites, the per-service-type site lists are the first occurrences of the
+(effective) sites of the non-exempt services of that type, every other attribute is absent. -/
+theorem collect_spec (sl : Slice) (k : Key) : get (collect sl) k = spec sl k := collect_spec_aux sl k
+
+theorem spec_default (sl : Slice) (k : Key)
+    (h1 : k ≠ .RESOURCE_TYPE) (h2 : k ≠ .RESOURCE_CPU) (h3 : k ≠ .RESOURCE_RAM) (h4 : k ≠ .RESOURCE_DISK)
+    (h5 : k ≠ .RESOURCE_SITE) (h6 : k ≠ .RESOURCE_COMPONENT) (h7 : k ≠ .RESOURCE_BW) (h8 : k ≠ .RESOURCE_FACILITY_PORT) :
+    spec sl k = dedup ((sl.svcs.filter fun s => decide (listedUnder (inPorts sl.ifaces) s k)).map fun s => .s (effSite s)) := by
+  rw [← collect_spec]; exact spec_other sl k h1 h2 h3 h4 h5 h6 h7 h8
+
+/-- **Completeness.** The request names the site of every node and service that has one, the cpu/ram/disk of every node
+with capacities, every attached component type, the bandwidth of every service with capacities, every facility, and -
+under the attribute the service-type table assigns - the (effective) site of every service of a listed type
+(PortMirror, FABNetv4Ext, FABNetv6Ext) that is not an in-slice mirror. -/
+theorem complete (sl : Slice) :
+    (∀ n ∈ sl.nodes,
+      (n.site ≠ "" → Val.s n.site ∈ get (collect sl) .RESOURCE_SITE) ∧
+      (∀ c, n.caps = some c → Val.i c.core ∈ get (collect sl) .RESOURCE_CPU ∧ Val.i c.ram ∈ get (collect sl) .RESOURCE_RAM ∧
+        Val.i c.disk ∈ get (collect sl) .RESOURCE_DISK) ∧
+      (∀ cs, n.comps = some cs → ∀ c ∈ cs, Val.s c ∈ get (collect sl) .RESOURCE_COMPONENT)) ∧
+    (∀ s ∈ sl.svcs,
+      (s.site ≠ "" → Val.s s.site ∈ get (collect sl) .RESOURCE_SITE) ∧
+      (∀ b, s.bw = some b → Val.i b ∈ get (collect sl) .RESOURCE_BW) ∧
+      (∀ k, lutFind s.stype nstypeLut = some k → ¬ exempt (inPorts sl.ifaces) s →
+        Val.s (effSite s) ∈ get (collect sl) k)) ∧
+    (∀ f ∈ sl.facs, Val.s f ∈ get (collect sl) .RESOURCE_FACILITY_PORT) := by
+  refine ⟨fun n hn => ⟨?_, ?_, ?_⟩, fun s hs => ⟨?_, ?_, ?_⟩, fun f hf => ?_⟩
+  · intro h
+    rw [collect_spec]; simp only [spec, mem_dedup, List.mem_append, List.mem_flatMap]
+    exact Or.inl ⟨n, hn, by simp [siteVal, h]⟩
+  · intro c hc
+    simp only [collect_spec, spec, List.mem_flatMap]
+    exact ⟨⟨n, hn, by simp [hc, optVal]⟩, ⟨n, hn, by simp [hc, optVal]⟩, ⟨n, hn, by simp [hc, optVal]⟩⟩
+  · intro cs hcs c hc
+    simp only [collect_spec, spec, List.mem_flatMap]
+    exact ⟨n, hn, by simp [hcs, hc]⟩
+  · intro h
+    rw [collect_spec]; simp only [spec, mem_dedup, List.mem_append, List.mem_flatMap]
+    exact Or.inr ⟨s, hs, by simp [siteVal, h]⟩
+  · intro b hb
+    simp only [collect_spec, spec, List.mem_flatMap]
+    exact ⟨s, hs, by simp [hb, optVal]⟩
+  · intro k hk he
+    obtain ⟨h1, h2, h3, h4, h7, h5, h6, h8⟩ := lut_disjoint k (lut_keys _ _ hk)
+    rw [collect_spec, spec_default sl k h1 h2 h3 h4 h5 h6 h7 h8, mem_dedup, List.mem_map]
+    exact ⟨s, by simp [List.mem_filter, hs, listedUnder, hk, he], rfl⟩
+  · simp only [collect_spec, spec, List.mem_map]
+    exact ⟨f, hf, rfl⟩
+
+/-- The three listed service types by name, on the regenerated table: an externally routed service's site is under its
+own attribute, and so is the site of a mirror service whose mirrored port is outside the slice. -/
+theorem complete_named (sl : Slice) (s : SvcS) (hs : s ∈ sl.svcs) :
+    (s.stype = "FABNetv4Ext" → Val.s (effSite s) ∈ get (collect sl) .RESOURCE_FABNETV4_EXT) ∧
+    (s.stype = "FABNetv6Ext" → Val.s (effSite s) ∈ get (collect sl) .RESOURCE_FABNETV6_EXT) ∧
+    (s.stype = "PortMirror" → s.mport ∉ inPorts sl.ifaces → Val.s (effSite s) ∈ get (collect sl) .RESOURCE_MIRROR_SITE) := by
+  have hc := ((complete sl).2.1 s hs).2.2
+  refine ⟨fun h => ?_, fun h => ?_, fun h hp => ?_⟩
+  · exact hc _ (by rw [h]; decide) (by intro he; rw [exempt, h] at he; exact absurd he.1 (by decide))
+  · exact hc _ (by rw [h]; decide) (by intro he; rw [exempt, h] at he; exact absurd he.1 (by decide))
+  · exact hc _ (by rw [h]; decide) (fun he => hp he.2)
+
+/-- **Soundness of the per-type site lists / meaning of the exemption.** A site is listed under a service-type attribute
+only on behalf of a non-exempt service of that type at that site: an in-slice mirror contributes nothing and removes
+nothing. -/
+theorem sound (sl : Slice) (k : Key) (hk : k ∈ nstypeLut.map (·.2)) (v : Val) (hv : v ∈ get (collect sl) k) :
+    ∃ s ∈ sl.svcs, lutFind s.stype nstypeLut = some k ∧ ¬ exempt (inPorts sl.ifaces) s ∧ v = .s (effSite s) := by
+  obtain ⟨h1, h2, h3, h4, h7, h5, h6, h8⟩ := lut_disjoint k hk
+  rw [collect_spec, spec_default sl k h1 h2 h3 h4 h5 h6 h7 h8, mem_dedup, List.mem_map] at hv
+  obtain ⟨s, hs, rfl⟩ := hv
+  rw [List.mem_filter] at hs
+  have h2 : listedUnder (inPorts sl.ifaces) s k := of_decide_eq_true hs.2
+  exact ⟨s, hs.1, h2.1, h2.2, rfl⟩
+
+/-- two stored orders of the same slice -/
+structure SlicePerm (a b : Slice) : Prop where
+  nodes : a.nodes.Perm b.nodes
+  svcs : a.svcs.Perm b.svcs
+  facs : a.facs.Perm b.facs
+  ifaces : a.ifaces.Perm b.ifaces
+
+example : SlicePerm
+    ⟨[], [⟨"pmout", "PortMirror", "S", none, some "outport"⟩, ⟨"pmin", "PortMirror", "S", none, some "inport"⟩], [], [some (some "inport")]⟩
+    ⟨[], [⟨"pmin", "PortMirror", "S", none, some "inport"⟩, ⟨"pmout", "PortMirror", "S", none, some "outport"⟩], [], [some (some "inport")]⟩ :=
+  ⟨List.Perm.refl _, List.Perm.swap _ _ _, List.Perm.refl _, List.Perm.refl _⟩
+
+theorem listed_congr {a b : Slice} (h : SlicePerm a b) (s : SvcS) (k : Key) :
+    listedUnder (inPorts a.ifaces) s k ↔ listedUnder (inPorts b.ifaces) s k := by
+  have hp : (inPorts a.ifaces).Perm (inPorts b.ifaces) := h.ifaces.filterMap _
+  unfold listedUnder exempt
+  rw [hp.mem_iff]
+
+/-- **Order independence.** For two stored orders of the same slice every attribute holds the same values with the same
+multiplicities (`List.Perm`: the code appends in iteration order, so positions differ, contents do not). -/
+theorem perm_invariant {a b : Slice} (h : SlicePerm a b) (k : Key) : (get (collect a) k).Perm (get (collect b) k) := by
+  have hdef : ∀ k, k ≠ .RESOURCE_TYPE → k ≠ .RESOURCE_CPU → k ≠ .RESOURCE_RAM → k ≠ .RESOURCE_DISK →
+      k ≠ .RESOURCE_SITE → k ≠ .RESOURCE_COMPONENT → k ≠ .RESOURCE_BW → k ≠ .RESOURCE_FACILITY_PORT →
+      (spec a k).Perm (spec b k) := by
+    intro k h1 h2 h3 h4 h5 h6 h7 h8
+    rw [spec_default a k h1 h2 h3 h4 h5 h6 h7 h8, spec_default b k h1 h2 h3 h4 h5 h6 h7 h8]
+    apply dedup_perm
+    have : (b.svcs.filter fun s => decide (listedUnder (inPorts b.ifaces) s k))
+        = (b.svcs.filter fun s => decide (listedUnder (inPorts a.ifaces) s k)) :=
+      List.filter_congr (fun s _ => by simp only [listed_congr h s k])
+    rw [this]
+    exact (h.svcs.filter _).map _
+  rw [collect_spec, collect_spec]
+  cases k
+  case RESOURCE_TYPE => simp only [spec, h.nodes.any_eq]; exact List.Perm.refl _
+  case RESOURCE_CPU => exact h.nodes.flatMap_right _
+  case RESOURCE_RAM => exact h.nodes.flatMap_right _
+  case RESOURCE_DISK => exact h.nodes.flatMap_right _
+  case RESOURCE_COMPONENT => exact h.nodes.flatMap_right _
+  case RESOURCE_BW => exact h.svcs.flatMap_right _
+  case RESOURCE_SITE => exact dedup_perm ((h.nodes.flatMap_right _).append (h.svcs.flatMap_right _))
+  case RESOURCE_FACILITY_PORT => exact h.facs.map _
+  all_goals exact hdef _ (by decide) (by decide) (by decide) (by decide) (by decide) (by decide) (by decide) (by decide)
+
+/-- the dictionary has unique keys and no empty attribute, so the attribute ids present are exactly those with values -/
+theorem keys_exact (sl : Slice) (k : Key) : k ∈ keys (collect sl) ↔ spec sl k ≠ [] := by
+  rw [← collect_spec]; exact mem_keys_iff _ (good_collect sl).2 k
+
+/-- **Order independence of the set of attributes present** (hence of the PDP request up to the order of its entries). -/
+theorem keys_perm_invariant {a b : Slice} (h : SlicePerm a b) : (keys (collect a)).Perm (keys (collect b)) := by
+  rw [List.perm_ext_iff_of_nodup (good_collect a).1 (good_collect b).1]
+  intro k
+  rw [mem_keys_iff _ (good_collect a).2, mem_keys_iff _ (good_collect b).2]
+  have hp := perm_invariant h k
+  constructor
+  · intro hne he; rw [he] at hp; exact hne hp.eq_nil
+  · intro hne he; rw [he] at hp; exact hne hp.symm.eq_nil
+
+/-! ### PDP request -/
+
+/-- every attribute constant has a data type and a category, and the category is one of the request's three (checked on
+the regenerated table; a constant without a row would make `transform_to_pdp_request` raise `KeyError`) -/
 theorem table_total : ∀ k : Key, k.dataType.isSome ∧ k.category.isSome ∧ (∀ c, k.category = some c → c ∈ categories) := by
   intro k; cases k <;> decide
+
+/-- distinct attribute constants have distinct ids (regenerated table) -/
+theorem ids_injective : ∀ k k' : Key, k.id = k'.id → k = k' := Authz.ids_injective
+
+theorem map_fst_pair {α β : Type} (f : α → β) (l : List α) : (l.map fun c => (c, f c)).map (·.1) = l := by
+  induction l with
+  | nil => rfl
+  | cons x xs ih => simp [ih]
+
+/-- `transform_to_pdp_request` never fails and returns the three categories in order, for any attribute dictionary -/
+theorem pdp_total (a : Attrs) : ∃ req, toPdp a = some req ∧ req.map (·.1) = categories := by
+  refine ⟨_, toPdp_eq a, ?_⟩
+  exact map_fst_pair _ _
+
+/-- **Well-formed PDP request.** For every slice the request exists, has exactly the (pairwise distinct) categories of
+the code, and every collected attribute `(k, v)` - where `v` is exactly `spec sl k` - occurs in the category the table
+assigns to `k` exactly once, with its data type and all its values, and in no other category. -/
+theorem pdp_request_wellformed (sl : Slice) :
+    ∃ req, toPdp (collect sl) = some req ∧ req.map (·.1) = categories ∧ categories.Nodup ∧
+      ∀ k v, (k, v) ∈ collect sl → v = spec sl k ∧
+        ∃ dt cat, k.dataType = some dt ∧ k.category = some cat ∧ cat ∈ categories ∧
+          ∀ c as, (c, as) ∈ req →
+            as.filter (fun x => decide (x.id = k.id)) = if cat = c then [⟨k.id, dt, v⟩] else [] := by
+  refine ⟨_, toPdp_eq _, map_fst_pair _ _, categories_nodup, ?_⟩
+  intro k v hm
+  have hg := good_collect sl
+  refine ⟨by rw [← collect_spec]; exact (mem_of_mem_attrs _ hg.1 k v hm).symm, ?_⟩
+  obtain ⟨dt, cat, hdt, hcat, hin⟩ := key_rows k
+  refine ⟨dt, cat, hdt, hcat, hin, ?_⟩
+  intro c as hc
+  rw [List.mem_map] at hc
+  obtain ⟨c', _, he⟩ := hc
+  simp only [Prod.mk.injEq] at he
+  obtain ⟨rfl, rfl⟩ := he
+  exact filter_row_present _ hg.1 k v hm dt cat hdt hcat c'
+
+/-- and every attribute of the request was collected: nothing else is in it -/
+theorem pdp_no_extra (sl : Slice) (req : Pdp) (h : toPdp (collect sl) = some req) (c : String) (as : List PAttr)
+    (hc : (c, as) ∈ req) (x : PAttr) (hx : x ∈ as) :
+    ∃ k v, (k, v) ∈ collect sl ∧ x.id = k.id ∧ x.value = v ∧ k.category = some c := by
+  rw [toPdp_eq] at h
+  simp only [Option.some.injEq] at h
+  subst h
+  rw [List.mem_map] at hc
+  obtain ⟨c', _, he⟩ := hc
+  simp only [Prod.mk.injEq] at he
+  obtain ⟨rfl, rfl⟩ := he
+  rw [List.mem_filterMap] at hx
+  obtain ⟨kv, hkv, hrow⟩ := hx
+  refine ⟨kv.1, kv.2, hkv, ?_⟩
+  unfold pdpRow at hrow
+  split at hrow
+  · split at hrow
+    · rename_i hcat hcc; simp only [Option.some.injEq] at hrow; subst hrow; exact ⟨rfl, rfl, by rw [hcat, hcc]⟩
+    · simp at hrow
+  · simp at hrow
+
+/-- the attribute ids a slice can contribute: the eight written directly and the targets of the service-type table -/
+def sliceKeys : List Key :=
+  [.RESOURCE_TYPE, .RESOURCE_CPU, .RESOURCE_RAM, .RESOURCE_DISK, .RESOURCE_BW, .RESOURCE_SITE, .RESOURCE_COMPONENT,
+   .RESOURCE_FACILITY_PORT] ++ nstypeLut.map (·.2)
+
+theorem collected_keys (sl : Slice) (k : Key) (h : k ∈ keys (collect sl)) : k ∈ sliceKeys := by
+  rw [keys_exact] at h
+  by_cases hk : k ∈ sliceKeys
+  · exact hk
+  · exfalso; apply h
+    simp only [sliceKeys, List.mem_append, List.mem_cons, List.not_mem_nil, or_false, not_or] at hk
+    obtain ⟨⟨h1, h2, h3, h4, h7, h5, h6, h8⟩, hl⟩ := hk
+    rw [spec_default sl k h1 h2 h3 h4 h5 h6 h7 h8]
+    have : (sl.svcs.filter fun s => decide (listedUnder (inPorts sl.ifaces) s k)) = [] := by
+      rw [List.filter_eq_nil_iff]
+      intro s _ hs
+      exact hl (lut_keys _ _ (of_decide_eq_true hs).1)
+    rw [this]; rfl
+
+/-- **Everything collected from a slice describes the resource**: it is emitted in the category of `resource-type`
+(the resource category), on the regenerated tables. -/
+theorem collected_in_resource_category (sl : Slice) (k : Key) (h : k ∈ keys (collect sl)) :
+    k.category = Key.RESOURCE_TYPE.category ∧ Key.RESOURCE_TYPE.category = categories.head? := by
+  have : ∀ k ∈ sliceKeys, k.category = Key.RESOURCE_TYPE.category := by decide
+  exact ⟨this k (collected_keys sl k h), by decide⟩
+
+/-! ### accounting summary (LogCollector) -/
+
+theorem logCollect_fields (sl : Slice) :
+    (logCollect sl).vm = sl.nodes.countP (fun n => decide (n.ntype = vmType)) ∧
+    (logCollect sl).p4 = sl.nodes.countP (fun n => decide (n.ntype = swType)) ∧
+    (logCollect sl).nodes = sl.nodes.filterMap vmCap ∧
+    (logCollect sl).cores = isum ((sl.nodes.filterMap vmCap).map (·.core)) ∧
+    (∀ t, cnt (logCollect sl).comps t = (sl.nodes.flatMap fun n => n.comps.getD []).count t) ∧
+    (logCollect sl).svcs = sl.svcs.map (fun s => (s.stype, s.bw.getD 0)) ∧
+    (logCollect sl).sites = addAll (addAll [] (sl.nodes.flatMap fun n => siteOf n.site)) (sl.svcs.flatMap fun s => siteOf s.site) ∧
+    (logCollect sl).facs = addAll (addAll [] (sl.nodes.flatMap facName)) sl.facs := by
+  unfold logCollect
+  obtain ⟨f1, f2, f3, f4, f5, f6, f7, f8⟩ := foldFac sl.facs (sl.svcs.foldl logSvc (sl.nodes.foldl logNode {}))
+  obtain ⟨s1, s2, s3, s4, s5, s6, s7, s8⟩ := foldSvc sl.svcs (sl.nodes.foldl logNode {})
+  refine ⟨?_, ?_, ?_, ?_, ?_, ?_, ?_, ?_⟩
+  · rw [f1, s1, foldNode_vm]; simp
+  · rw [f2, s2, foldNode_p4]; simp
+  · rw [f4, s4, foldNode_nodes]; simp
+  · rw [f3, s3, foldNode_cores]; simp
+  · intro t; rw [f5, s5, foldNode_comps]; simp [cnt]
+  · rw [f6, s7, foldNode_svcs]; simp
+  · rw [f7, s8, foldNode_sites]
+  · rw [f8, s6, foldNode_facs]
+
+/-- **Accounting tallies equal a direct count of the slice**: VMs and switches by node type, cores and the VM capacity
+list over the VMs that have an allocation or a capacity (allocation preferred), components by type, one `(type, bw)` entry
+per service (bw 0 without capacities), the set of non-empty node and service sites, the set of facility names (facility
+list and Facility-typed nodes); the two sets are duplicate-free. -/
+theorem log_counts (sl : Slice) :
+    (logCollect sl).vm = sl.nodes.countP (fun n => decide (n.ntype = "VM")) ∧
+    (logCollect sl).p4 = sl.nodes.countP (fun n => decide (n.ntype = "Switch")) ∧
+    (logCollect sl).nodes = sl.nodes.filterMap vmCap ∧
+    (logCollect sl).cores = isum ((sl.nodes.filterMap vmCap).map (·.core)) ∧
+    (∀ t, cnt (logCollect sl).comps t = (sl.nodes.flatMap fun n => n.comps.getD []).count t) ∧
+    (logCollect sl).svcs = sl.svcs.map (fun s => (s.stype, s.bw.getD 0)) ∧
+    (∀ x, x ∈ (logCollect sl).sites ↔ x ≠ "" ∧ ((∃ n ∈ sl.nodes, n.site = x) ∨ (∃ s ∈ sl.svcs, s.site = x))) ∧
+    (∀ x, x ∈ (logCollect sl).facs ↔ x ∈ sl.facs ∨ ∃ n ∈ sl.nodes, n.ntype = "Facility" ∧ n.name = x) ∧
+    (logCollect sl).sites.Nodup ∧ (logCollect sl).facs.Nodup := by
+  obtain ⟨h1, h2, h3, h4, h5, h6, h7, h8⟩ := logCollect_fields sl
+  refine ⟨h1, h2, h3, h4, h5, h6, ?_, ?_, ?_, ?_⟩
+  · intro x
+    rw [h7, mem_addAll, mem_addAll, List.mem_flatMap, List.mem_flatMap]
+    simp only [List.not_mem_nil, false_or, siteOf]
+    constructor
+    · rintro (⟨n, hn, hx⟩ | ⟨s, hs, hx⟩)
+      · by_cases h : n.site = "" <;> simp [h] at hx
+        subst hx; exact ⟨h, Or.inl ⟨n, hn, rfl⟩⟩
+      · by_cases h : s.site = "" <;> simp [h] at hx
+        subst hx; exact ⟨h, Or.inr ⟨s, hs, rfl⟩⟩
+    · rintro ⟨hne, ⟨n, hn, rfl⟩ | ⟨s, hs, rfl⟩⟩
+      · exact Or.inl ⟨n, hn, by simp [hne]⟩
+      · exact Or.inr ⟨s, hs, by simp [hne]⟩
+  · intro x
+    rw [h8, mem_addAll, mem_addAll, List.mem_flatMap]
+    simp only [List.not_mem_nil, false_or, facName]
+    constructor
+    · rintro (⟨n, hn, hx⟩ | hx)
+      · by_cases h : n.ntype = facType <;> simp [h] at hx
+        subst hx; exact Or.inr ⟨n, hn, h, rfl⟩
+      · exact Or.inl hx
+    · rintro (hx | ⟨n, hn, ht, rfl⟩)
+      · exact Or.inr hx
+      · exact Or.inl ⟨n, hn, by rw [if_pos (show n.ntype = facType from ht)]; simp⟩
+  · rw [h7]; exact nodup_addAll _ _ (nodup_addAll _ _ List.nodup_nil)
+  · rw [h8]; exact nodup_addAll _ _ (nodup_addAll _ _ List.nodup_nil)
+
+/-- **The accounting summary does not depend on the stored order** (lists as multisets, sets as sets). -/
+theorem log_perm_invariant {a b : Slice} (h : SlicePerm a b) :
+    (logCollect a).vm = (logCollect b).vm ∧ (logCollect a).p4 = (logCollect b).p4 ∧
+    (logCollect a).cores = (logCollect b).cores ∧ ((logCollect a).nodes).Perm (logCollect b).nodes ∧
+    (∀ t, cnt (logCollect a).comps t = cnt (logCollect b).comps t) ∧
+    ((logCollect a).svcs).Perm (logCollect b).svcs ∧
+    ((logCollect a).sites).Perm (logCollect b).sites ∧ ((logCollect a).facs).Perm (logCollect b).facs := by
+  obtain ⟨a1, a2, a3, a4, a5, a6, a7, a8, a9, a10⟩ := log_counts a
+  obtain ⟨b1, b2, b3, b4, b5, b6, b7, b8, b9, b10⟩ := log_counts b
+  refine ⟨?_, ?_, ?_, ?_, ?_, ?_, ?_, ?_⟩
+  · rw [a1, b1]; exact h.nodes.countP_eq _
+  · rw [a2, b2]; exact h.nodes.countP_eq _
+  · rw [a4, b4]; exact isum_perm ((h.nodes.filterMap _).map _)
+  · rw [a3, b3]; exact h.nodes.filterMap _
+  · intro t; rw [a5, b5]; exact (h.nodes.flatMap_right _).count_eq t
+  · rw [a6, b6]; exact h.svcs.map _
+  · rw [List.perm_ext_iff_of_nodup a9 b9]; intro x; rw [a7, b7]
+    have e1 : (∃ n ∈ a.nodes, n.site = x) ↔ (∃ n ∈ b.nodes, n.site = x) :=
+      ⟨fun ⟨n, hn, e⟩ => ⟨n, h.nodes.mem_iff.mp hn, e⟩, fun ⟨n, hn, e⟩ => ⟨n, h.nodes.mem_iff.mpr hn, e⟩⟩
+    have e2 : (∃ s ∈ a.svcs, s.site = x) ↔ (∃ s ∈ b.svcs, s.site = x) :=
+      ⟨fun ⟨n, hn, e⟩ => ⟨n, h.svcs.mem_iff.mp hn, e⟩, fun ⟨n, hn, e⟩ => ⟨n, h.svcs.mem_iff.mpr hn, e⟩⟩
+    rw [e1, e2]
+  · rw [List.perm_ext_iff_of_nodup a10 b10]; intro x; rw [a8, b8, h.facs.mem_iff]
+    have e1 : (∃ n ∈ a.nodes, n.ntype = "Facility" ∧ n.name = x) ↔ (∃ n ∈ b.nodes, n.ntype = "Facility" ∧ n.name = x) :=
+      ⟨fun ⟨n, hn, e⟩ => ⟨n, h.nodes.mem_iff.mp hn, e⟩, fun ⟨n, hn, e⟩ => ⟨n, h.nodes.mem_iff.mpr hn, e⟩⟩
+    rw [e1]
+
+/-! ### the defect repaired by /repo a372b34, on the pre-repair fold (`collectLegacy`, no longer the code) -/
+
+def legacyA : Slice :=
+  ⟨[], [⟨"pmout", "PortMirror", "S", none, some "outport"⟩, ⟨"pmin", "PortMirror", "S", none, some "inport"⟩], [], [some (some "inport")]⟩
+def legacyB : Slice :=
+  ⟨[], [⟨"pmin", "PortMirror", "S", none, some "inport"⟩, ⟨"pmout", "PortMirror", "S", none, some "outport"⟩], [], [some (some "inport")]⟩
+def legacyC : Slice :=
+  ⟨[], [⟨"ma", "PortMirror", "A", none, some "out1"⟩, ⟨"mb", "PortMirror", "B", none, some "out2"⟩,
+        ⟨"mc", "PortMirror", "A", none, some "inport"⟩], [], [some (some "inport")]⟩
+
+/-- With the exemption written as append-if-absent followed by `pop()`, the full statements `complete` and
+`perm_invariant` were false: the outside-port mirror at S is not named in one stored order (corpus/C11/01) and is in the
+other; with three mirrors the popped element is the site of an unrelated service (corpus/C11/02). The repaired fold
+names them. -/
+theorem legacy_mirror_counterexample :
+    get (collectLegacy legacyA) .RESOURCE_MIRROR_SITE = [] ∧
+    get (collectLegacy legacyB) .RESOURCE_MIRROR_SITE = [.s "S"] ∧
+    get (collectLegacy legacyC) .RESOURCE_MIRROR_SITE = [.s "A"] ∧
+    get (collect legacyA) .RESOURCE_MIRROR_SITE = [.s "S"] ∧
+    get (collect legacyB) .RESOURCE_MIRROR_SITE = [.s "S"] ∧
+    get (collect legacyC) .RESOURCE_MIRROR_SITE = [.s "A", .s "B"] := by
+  refine ⟨?_, ?_, ?_, ?_, ?_, ?_⟩ <;> decide
+
+/-- non-vacuity of the hypothesis of `sound` -/
+example : Key.RESOURCE_MIRROR_SITE ∈ nstypeLut.map (·.2) := by decide
 
 end FimVerif.C11
